@@ -37,7 +37,13 @@ func genScenario(r *vlib.PRNG, idx int, buddy bool, steps int) *scenario {
 	case 2:
 		sc.Focus = "unified-small"
 	}
+	// a third of the histories contain page migrations (built with the fake
+	// MMU / command processors; at least two GPUs)
+	sc.Mig = idx%3 == 0
 	n := 1 + r.Intn(4)
+	if sc.Mig && n < 2 {
+		n = 2 + r.Intn(3)
+	}
 	choices, choices2 := gpuPageChoices, gpuPageChoicesPow2
 	switch sc.Focus {
 	case "unified":
@@ -347,6 +353,21 @@ func (g *generator) next(remaining int) (op, bool) {
 	for attempt := 0; attempt < 40; attempt++ {
 		c := r.Intn(len(w.ctxs))
 		cs := w.ctxs[c]
+		if w.sc.Mig {
+			// migration histories: page migrations, and more unified-memory
+			// buffers (the only pages the MMU ever migrates)
+			switch y := r.Intn(100); {
+			case y < 16:
+				if o, ok := g.genMigrate(c); ok {
+					return o, true
+				}
+			case y < 25:
+				n := g.pickPages()
+				if w.canTake(1, n, false) {
+					return op{K: kAllocU, C: c, Size: g.pickSize(n)}, true
+				}
+			}
+		}
 		x := r.Intn(100)
 		switch {
 		case x < wt[0]: // alloc on the context's current device
@@ -467,6 +488,18 @@ func (g *generator) next(remaining int) (op, bool) {
 			}
 		default: // fill a GPU or a unified device to the brim, then free k / re-allocate k
 			dev := g.pickTarget(false)
+			if w.sc.Mig && r.Bool() {
+				// the GPU that hosts a migrated buffer of this context, so
+				// that the free-k / re-allocate-k episode returns frames
+				// handed out by a migration
+				for _, s := range cs.bufs {
+					if b := w.bufs[s]; b.live && w.placementOf(b) == kMigrate+":gpu" {
+						if h := w.hostOf(b.pages[0]); h >= 1 {
+							dev = h
+						}
+					}
+				}
+			}
 			if w.devs[dev].inexact {
 				continue
 			}
@@ -542,6 +575,18 @@ func (g *generator) refillStep() (op, bool) {
 		}
 		cand = nc
 	}
+	if w.sc.Mig {
+		// buffers placed by a migration first
+		var first, rest []int
+		for _, s := range cand {
+			if w.placementOf(w.bufs[s]) == kMigrate+":gpu" {
+				first = append(first, s)
+			} else {
+				rest = append(rest, s)
+			}
+		}
+		cand = append(first, rest...)
+	}
 	k := 0
 	for _, s := range cand {
 		if k >= want {
@@ -549,6 +594,10 @@ func (g *generator) refillStep() (op, bool) {
 		}
 		g.pending = append(g.pending, op{K: kFree, C: p.c, Buf: s})
 		k += len(w.bufs[s].pages)
+		if pl := w.placementOf(w.bufs[s]); pl == kMigrate+":gpu" || pl == "mixed" {
+			// counted when planned; the frees and re-allocations follow at once
+			w.cov("refill-frees-a-buffer|placed-by=" + pl)
+		}
 	}
 	for i := 0; i < k; i++ {
 		g.pending = append(g.pending, op{K: kAlloc, C: p.c, Size: g.pickSize(1)})
